@@ -77,4 +77,63 @@ def progressBar (c : Counts) (barSize : Nat) : Bytes :=
     ([(c.done + c.failed, (61 : UInt8)), (c.queued + c.running + c.ready, 45), (c.want, 32)].foldl
       (barStep barSize total) (0, [])).2
 
+/-! ### One frame of the fancy display (`FancyState::print_progress`) -/
+
+/-- A running task as `FancyState` tracks it.  `lastLine` is what `task_output` stored:
+    `String::from_utf8_lossy` of the last output line (std's decoder is a parameter of the
+    model: the correspondence run supplies its result for the raw bytes). -/
+structure FrameTask where
+  message : Bytes
+  secs : Nat
+  lastLine : Option Bytes
+  deriving Repr
+
+/-- The rows `print_progress` writes for one task: its message, then its last output line
+    indented by two blanks and cut to `max_cols - 2` bytes at a character boundary. -/
+def taskRows (t : FrameTask) (cols : Nat) : Res (List Bytes) :=
+  match taskMessage t.message t.secs cols with
+  | .ok m =>
+    match t.lastLine with
+    | none => .ok [m]
+    | some l =>
+      if cols < 2 then .overflow      -- `max_cols - 2` (usize)
+      else .ok [m, [32, 32] ++ truncate l (cols - 2)]
+  | .err e => .err e
+  | .panic p => .panic p
+  | .oob => .oob
+  | .overflow => .overflow
+  | .fuel => .fuel
+
+def allTaskRows : List FrameTask → Nat → Res (List Bytes)
+  | [], _ => .ok []
+  | t :: ts, cols =>
+    match taskRows t cols with
+    | .ok rs =>
+      match allTaskRows ts cols with
+      | .ok rest => .ok (rs ++ rest)
+      | r => r
+    | r => r
+
+def str (s : String) : Bytes := s.toUTF8.toList
+
+/-- The first row: bar, finished/total, failures, running tasks / startable steps. -/
+def frameHeader (c : Counts) (nTasks : Nat) : Bytes :=
+  str "[" ++ progressBar c 40 ++ str "] " ++ digits (c.done + c.failed) ++ str "/" ++ digits c.total ++ str " done, " ++
+  (if c.failed > 0 then digits c.failed ++ str " failed, " else []) ++
+  digits nTasks ++ str "/" ++ digits (c.queued + c.running + c.ready) ++ str " running"
+
+/-- `print_progress`: header, at most 8 tasks, "...and N more", cursor-up by the number of rows. -/
+def frame (c : Counts) (tasks : List FrameTask) (colsOpt : Option Nat) : Res Bytes :=
+  let cols := colsOpt.getD 80
+  match allTaskRows (tasks.take 8) cols with
+  | .ok rows =>
+    let more : List Bytes := if tasks.length > 8 then [str "...and " ++ digits (tasks.length - 8) ++ str " more"] else []
+    let lines := frameHeader c tasks.length :: rows ++ more
+    .ok (lines.flatMap (· ++ [10]) ++ [27, 91] ++ digits lines.length ++ [65])
+  | .err e => .err e
+  | .panic p => .panic p
+  | .oob => .oob
+  | .overflow => .overflow
+  | .fuel => .fuel
+
 end N2V.Render
